@@ -151,11 +151,18 @@ func (self *Engine) SubmitFlights(passport Passport, flights []Flight, now Epoch
 		return err
 	}
 	
-	// Add flights to traveller's flight history
-	for _,flight := range flights {
+	// Add flights to traveller's flight history. Whether the traveller is cleared
+	// to travel is decided once for the check-in, at its first flight
+	for i,flight := range flights {
 
 		// Update traveller with the new flight
-		bac,pd,err := t.submitFlight(&flight,now,self.Administrator.params.TaxiOverhead,debit)
+		var bac,pd Kilometres
+		var err error
+		if i == 0 {
+			bac,pd,err = t.submitFlight(&flight,now,self.Administrator.params.TaxiOverhead,debit)
+		} else {
+			err = t.addFollowOnFlight(&flight,now,self.Administrator.params.TaxiOverhead,debit)
+		}
 		if err != nil {
 			return err
 		}
